@@ -744,6 +744,12 @@ pub fn run_case(t: &mut Target, kind: &str, bytes: &[u8], pristine: bool, st: &m
             // total afterwards: every query kind, a tag switch, re-serialization
             let after = catch_unwind(AssertUnwindSafe(|| {
                 let _ = full_answers(&t.engine, &t.w, &t.reqs, false);
+                // time passes: the periodic clean-up of compiled regexes runs over whatever was loaded
+                // (entries that compiled and entries that did not), and the rules are used again
+                adblock::verif_hooks::clock_advance_ns(181_000_000_000);
+                let _ = full_answers(&t.engine, &t.w, &t.reqs, true);
+                adblock::verif_hooks::clock_advance_ns(31_000_000_000);
+                let _ = full_answers(&t.engine, &t.w, &t.reqs, true);
                 let tv: Vec<&str> = t.w.tags.iter().map(|s| s.as_str()).collect();
                 t.engine.use_tags(&tv);
                 let _ = full_answers(&t.engine, &t.w, &t.reqs, true);
